@@ -12,6 +12,7 @@ Fixpoint versions (prog : list action) (p : path) : list str :=
   | [] => []
   | ASave f new :: rest => if str_eqb f p then new :: versions rest p else versions rest p
   | AChmod _ _ :: rest => versions rest p
+  | AIfSaved _ f new :: rest => if str_eqb f p then new :: versions rest p else versions rest p
   end.
 
 (* Prop form: every original path still exists and holds its complete old
@@ -53,6 +54,7 @@ Fixpoint saved_paths (prog : list action) : list path :=
   | [] => []
   | ASave f _ :: rest => f :: saved_paths rest
   | AChmod _ _ :: rest => saved_paths rest
+  | AIfSaved _ f _ :: rest => f :: saved_paths rest
   end.
 
 Definition tmp_free (init : fsmap) (prog : list action) : Prop :=
